@@ -62,3 +62,53 @@ func (c *vConn) RemoteAddr() net.Addr               { return vAddr("10.0.0.2:794
 func (c *vConn) SetDeadline(t time.Time) error      { c.deadlines++; return nil }
 func (c *vConn) SetReadDeadline(t time.Time) error  { c.deadlines++; return nil }
 func (c *vConn) SetWriteDeadline(t time.Time) error { c.deadlines++; return nil }
+
+// vDuplex is one end of an in-memory full-duplex stream built on channels: Read blocks until the peer
+// writes or closes. Works natively and under the engine's thread scheduler alike.
+type vDuplex struct {
+	in      chan []byte
+	out     chan []byte
+	pending []byte
+	closed  int
+	deadlines int
+	wrote   []byte
+}
+
+func vNewDuplex() (*vDuplex, *vDuplex) {
+	ab, ba := make(chan []byte, 16), make(chan []byte, 16)
+	return &vDuplex{in: ba, out: ab}, &vDuplex{in: ab, out: ba}
+}
+
+func (c *vDuplex) Read(p []byte) (int, error) {
+	if len(c.pending) == 0 {
+		b, ok := <-c.in
+		if !ok {
+			return 0, io.EOF
+		}
+		c.pending = b
+	}
+	n := copy(p, c.pending)
+	c.pending = c.pending[n:]
+	return n, nil
+}
+func (c *vDuplex) Write(p []byte) (int, error) {
+	if c.closed > 0 {
+		return 0, vErr{}
+	}
+	cp := append([]byte(nil), p...)
+	c.wrote = append(c.wrote, cp...)
+	c.out <- cp
+	return len(p), nil
+}
+func (c *vDuplex) Close() error {
+	if c.closed == 0 {
+		close(c.out)
+	}
+	c.closed++
+	return nil
+}
+func (c *vDuplex) LocalAddr() net.Addr                { return vAddr("10.0.0.1:7946") }
+func (c *vDuplex) RemoteAddr() net.Addr               { return vAddr("10.0.0.2:7946") }
+func (c *vDuplex) SetDeadline(t time.Time) error      { c.deadlines++; return nil }
+func (c *vDuplex) SetReadDeadline(t time.Time) error  { return nil }
+func (c *vDuplex) SetWriteDeadline(t time.Time) error { return nil }
